@@ -186,6 +186,12 @@ structure Stage where
   /-- scratch directory removed in a `finally` of the call chain -/
   tryFinally : Bool
   merge : Merge
+  /-- dict stages: the key under which a process is registered is distinct for
+  distinct workers by construction - it is the loop variable of a
+  `for k in range(...)` dispatch loop, or a value chosen under `if x not in
+  started:` and added to that set before the registration (`KeysOK` of the
+  theorems).  `true` for list stages. -/
+  keysDistinct : Bool := true
   deriving Repr, DecidableEq, Inhabited
 
 structure Env where
@@ -305,7 +311,7 @@ def hasDispatch : List Stmt → Bool
 
 /-- what `./check` demands of every regenerated stage skeleton -/
 def Stage.ok (s : Stage) : Bool :=
-  wellFormed s.prog && hasDispatch s.prog && s.merge != .unknown
+  wellFormed s.prog && hasDispatch s.prog && s.merge != .unknown && s.keysDistinct
 
 /-- the skeleton every stage is expected to have:
 ```
